@@ -68,8 +68,43 @@ pub(crate) mod verif_probe {
         b
     }
 
+    fn body_shape(b: &SetExpr) -> Value {
+        match b {
+            SetExpr::Select(sel) => json!({"kind": "Select", "into": sel.into.is_some()}),
+            SetExpr::Query(q) => json!({"kind": "Query", "query": query_shape(q)}),
+            SetExpr::SetOperation { left, right, .. } => json!({"kind": "SetOperation", "left": body_shape(left), "right": body_shape(right)}),
+            SetExpr::Values(_) => json!({"kind": "Values"}),
+            SetExpr::Insert(_) => json!({"kind": "Insert"}),
+            SetExpr::Update(_) => json!({"kind": "Update"}),
+            SetExpr::Table(_) => json!({"kind": "Table"}),
+        }
+    }
+
+    fn query_shape(q: &sqlparser::ast::Query) -> Value {
+        let with: Vec<Value> = match &q.with { Some(w) => w.cte_tables.iter().map(|c| query_shape(&c.query)).collect(), None => vec![] };
+        json!({"locks": q.locks.len(), "with": with, "body": body_shape(q.body.as_ref())})
+    }
+
     pub(crate) fn handle(op: &str, v: &Value) -> Option<Value> {
         match op {
+            "ast_shape" => {
+                let sql = v["sql"].as_str().unwrap();
+                match Parser::parse_sql(&PostgreSqlDialect {}, sql) {
+                    Err(e) => Some(json!({"parse_error": e.to_string()})),
+                    Ok(ast) => {
+                        let mut out = vec![];
+                        for st in ast.iter() {
+                            let dbg = format!("{:?}", st);
+                            let kind = dbg.split(|c: char| !c.is_alphanumeric()).next().unwrap_or("").to_string();
+                            match st {
+                                Statement::Query(q) => out.push(json!({"kind": kind, "query": query_shape(q)})),
+                                _ => out.push(json!({"kind": kind})),
+                            }
+                        }
+                        Some(json!({"statements": out}))
+                    }
+                }
+            }
             // run a sequence of messages through one QueryRouter
             "qr_seq" => {
                 QueryRouter::setup();
@@ -135,6 +170,21 @@ pub(crate) mod verif_probe {
                 let msg = BytesMut::from(&hex(v["hex"].as_str().unwrap())[..]);
                 let r = qr.infer_shard_from_bind(&msg);
                 Some(json!({"result": r, "active_shard": qr.active_shard.map(|x| x.to_string()), "placeholders_left": qr.placeholders.len()}))
+            }
+            "role_eq" => {
+                let roles = [Role::Primary, Role::Replica, Role::Mirror];
+                let mut all_ok = true;
+                let mut rows = vec![];
+                for r in roles.iter() {
+                    for w in [None, Some(Role::Primary), Some(Role::Replica), Some(Role::Mirror)].iter() {
+                        let spec = match w { None => true, Some(x) => x == r };
+                        let a = *r == *w;
+                        let b = *w == *r;
+                        if a != spec || b != spec { all_ok = false; }
+                        rows.push(json!([format!("{:?}", r), format!("{:?}", w), a, b, spec]));
+                    }
+                }
+                Some(json!({"all_ok": all_ok, "rows": rows}))
             }
             "regexes" => {
                 Some(json!({"regexes": CUSTOM_SQL_REGEXES.to_vec()}))
